@@ -82,6 +82,45 @@ CHECKS.update({
         ref="4 (C19)"),
 })
 
+CHECKS.update({
+    "C11": dict(
+        level="exploration",
+        technique=PIPE + "; traces also assembled synthetically from real Tree objects (input generation, labelled)",
+        text="400 (thorough 20 000) traces - sampled by simulated multi-chain runs whose chain completion order (hence dict order and file bytes) the scheduler chose, and synthetic corner traces (repeated/relabelled copies, exact ties, all-outlier and single-clone trees) - are summarised by map (both modes) and topology-report with archive under several permutations of chain insertion order; outputs are parsed back and compared with a trace model that works on the dictionary images only: maximum, most frequent, one row per distinct tree, counts, scores, pointers, ranking, archive members.",
+        note="Only the chain-order schedule quantifier is a simulation matter here; the rest is a history oracle. Tree identity in the model is computed from the images, not via Tree.__eq__.",
+        ref="4 (C11)"),
+    "C12": dict(
+        level="exploration",
+        technique=PIPE + "; traces also assembled synthetically from real Tree objects (input generation, labelled)",
+        text="On the same traces every (table, Newick) pair written by map, consensus and inside the topology archive must list each input mutation once per sample, use clone ids that are Newick nodes or -1, keep clusters together, report ccf / clonal prevalence constant per clone and sample within [0,1] and -1 exactly for outliers; all commands must complete for every tree form (all-outlier, single clone, clones plus outliers, clustered, consensus with empty clones).",
+        note="Optimality of the CCF values is C10 and not checked.",
+        ref="4 (C12)"),
+    "C14": dict(
+        level="exploration",
+        technique="deterministic simulation of seeded sampler workloads with cache faults (per-run cache size, clears at arbitrary points, alpha changed without a clear, interleaved kernels); every memoised call shadowed by the unmemoised original at call time",
+        text="~1e5 shadowed calls per quick run across the five memoised entry points (convolution recursion, pairwise convolution, semi/fully adapted proposal distributions, cached new-clone tree) under cache sizes {1,2,3,16,shipped,off}: the memoised result must equal the original recomputed at that moment (arrays 1e-9; proposals: same support on canonical trees and same log_q; new-clone tree: same tree, log_p, log_p_one, log_pdf).",
+        note="The memoising wrappers are re-created from the repo's own decorators at the per-run size; a change inside the decorators is exercised, a change of the shipped sizes is not. One grid shape per process as the statement stipulates.",
+        ref="4 (C14)"),
+    "C16": dict(
+        level="exploration",
+        technique=PIPE + "; traces also assembled synthetically from real Tree objects (input generation, labelled)",
+        text="Same traces, consensus with both weight types and thresholds from [0.5,1]: the clade set of the written tree must equal the set of clades whose support strictly exceeds the threshold, uncovered data points carry clone -1, the command never raises; synthetic traces include majority clades that are the exact union of their children, twice in one tree (the case that merged two empty clones before the fix).",
+        note="Runs with a support within 1e-9 of the threshold are skipped, as the statement excludes them.",
+        ref="4 (C16)"),
+    "C18": dict(
+        level="exploration",
+        technique=PIPE + "; perturbed chain schedules, simulated worker reuse, and re-execution in fresh interpreters under other PYTHONHASHSEED values",
+        text="For 24 (thorough 400) seeded option sets a canonical execution gives reference per-chain traces; 5 perturbed schedules (start / finish order, all chains on one worker with warm caches, seeded assignment) and 2 (4) other hash seeds in fresh interpreters must reproduce per chain the same sequence of trees, labels, alpha, iter and log_p_one (1e-9). Thorough tier also observes the real spawn pool under two hash seeds with and without CPU pinning.",
+        note="Chains run in-process under the simulated executor (pickled arguments, fresh or warm memo caches); interpreter start-up of spawn workers is observed only in the thorough tier.",
+        ref="4 (C18)"),
+    "C20": dict(
+        level="fault_enumeration",
+        technique="deterministic simulation with storage faults: the gzip file behind the trace writer/readers is a simulated disk; every truncation / kill / ENOSPC offset of the single write is enumerated and fed to the three readers",
+        text="For 3 (thorough 40) simulated runs every prefix length of the trace image is read by map, consensus and topology-report: each call must raise or give outputs identical to the complete trace's (about 20 000 reader calls per quick run; only the last ~10 trailer bytes may be missing). The writer itself is cut by ENOSPC and by process death at all offsets near both ends and on a grid: it must not report success. A dying chain worker must make run fail without a readable trace.",
+        note="Exhaustive over crash points per trace; traces are seeded samples. Debris left by a failing command is not flagged.",
+        ref="4 (C20)"),
+})
+
 ALL = ["C%02d" % i for i in range(1, 21)]
 
 
